@@ -5,6 +5,17 @@ from prophyc import model, six
 from prophyc.file_processor import CyclicIncludeError, FileNotFoundError
 
 
+class IsarError(model.ModelError, ValueError):
+    """ Isar input is well-formed xml, but does not describe a model; reported through prophyc's error channel. """
+
+
+def required(xml_elem, attribute):
+    value = xml_elem.get(attribute)
+    if value is None:
+        raise IsarError("<%s> element lacks '%s' attribute" % (xml_elem.tag, attribute))
+    return value
+
+
 def extract_operator_args(string_, pos):
     brackets = 0
     open_pos = pos
@@ -59,7 +70,7 @@ primitive_types = {"8 bit integer unsigned": "u8",
 
 def make_include(xml_elem, process_file, warn):
     if "include" in xml_elem.tag:
-        path = xml_elem.get("href")
+        path = required(xml_elem, "href")
         try:
             nodes = process_file(path)
         except (CyclicIncludeError, FileNotFoundError) as e:
@@ -75,8 +86,8 @@ def get_docstr(xml_elem):
 
 def make_constant(xml_elem):
     return model.Constant(
-        xml_elem.get("name"),
-        expand_operators(xml_elem.get("value")),
+        required(xml_elem, "name"),
+        expand_operators(required(xml_elem, "value")),
         docstring=get_docstr(xml_elem)
     )
 
@@ -84,14 +95,16 @@ def make_constant(xml_elem):
 def make_typedef(xml_elem):
     if "type" in xml_elem.attrib:
         return model.Typedef(
-            xml_elem.get("name"),
+            required(xml_elem, "name"),
             xml_elem.get("type"),
             docstring=get_docstr(xml_elem)
         )
 
     elif "primitiveType" in xml_elem.attrib and xml_elem.get("name") not in primitive_types.values():
+        if xml_elem.get("primitiveType") not in primitive_types:
+            raise IsarError("unknown primitiveType '%s'" % xml_elem.get("primitiveType"))
         return model.Typedef(
-            xml_elem.get("name"),
+            required(xml_elem, "name"),
             primitive_types[xml_elem.get("primitiveType")],
             docstring=get_docstr(xml_elem)
         )
@@ -102,13 +115,13 @@ def make_enum(xml_elem):
         values = set()
         for m in enum_obj.members:
             if m.value in values:
-                raise ValueError("Duplicate Enum value in '{}', value '{}'.".format(enum_obj.name, m.value))
+                raise IsarError("Duplicate Enum value in '{}', value '{}'.".format(enum_obj.name, m.value))
             values.add(m.value)
 
     if len(xml_elem):
         members = []
         for member in xml_elem:
-            value = member.get('value')
+            value = required(member, 'value')
             try:
                 int_value = int(value, 0)
                 if int_value < 0:
@@ -116,19 +129,19 @@ def make_enum(xml_elem):
             except ValueError:
                 pass
             members.append(model.EnumMember(
-                member.get("name"),
+                required(member, "name"),
                 expand_operators(value),
                 docstring=get_docstr(member))
             )
 
-        enum = model.Enum(xml_elem.get("name"), members, docstring=get_docstr(xml_elem))
+        enum = model.Enum(required(xml_elem, "name"), members, docstring=get_docstr(xml_elem))
         check_for_duplicates(enum)
         return enum
 
 
 def make_struct_members(xml_elem, dynamic_array=False):
-    xml_elem_name = xml_elem.get("name")
-    xml_elem_type = xml_elem.get("type")
+    xml_elem_name = required(xml_elem, "name")
+    xml_elem_type = required(xml_elem, "type")
     optional = xml_elem.get("optional")
     optional = bool(optional) and optional.lower() == "true"
     dimension = xml_elem.find("dimension")
@@ -172,7 +185,7 @@ def make_struct(xml_elem, last_member_array_is_dynamic=False):
         for member in xml_elem:
             for sub_ in make_struct_members(member, last_member_array_is_dynamic):
                 members.append(sub_)
-        return model.Struct(xml_elem.get("name"), members, docstring=get_docstr(xml_elem))
+        return model.Struct(required(xml_elem, "name"), members, docstring=get_docstr(xml_elem))
 
 
 def make_union(xml_elem):
@@ -180,12 +193,12 @@ def make_union(xml_elem):
         members = []
         for member in xml_elem:
             members.append(model.UnionMember(
-                member.get("name"),
-                member.get("type"),
-                member.get("discriminatorValue"),
+                required(member, "name"),
+                required(member, "type"),
+                required(member, "discriminatorValue"),
                 docstring=get_docstr(member),
             ))
-        return model.Union(xml_elem.get('name'), members, docstring=get_docstr(xml_elem))
+        return model.Union(required(xml_elem, 'name'), members, docstring=get_docstr(xml_elem))
 
 
 class IsarParser(object):
@@ -193,7 +206,7 @@ class IsarParser(object):
     def __init__(self, warn=None):
         self.warn = warn
 
-    def parse(self, content, _, process_file):
+    def parse(self, content, path, process_file):
         # by default FileProcessor decodes files while opening in _process_file method,
         # but ElementTree doesn't like it. ElementTree handles the encoding on its own,
         # so it's OK to encode the data back into utf-8 before parsing
@@ -222,4 +235,7 @@ class IsarParser(object):
             for xml_elem in root.iterfind('.//message'):
                 yield make_struct(xml_elem, last_member_array_is_dynamic=True)
 
-        return [element for element in collect() if element]
+        try:
+            return [element for element in collect() if element]
+        except ElementTree.ParseError as e:
+            raise model.ParseError([(path, str(e))])
